@@ -809,6 +809,13 @@ func (ev *Ev) box(v Value) Value {
 		ev.st.assume(not(app("=", b, "nil"))) // an interface holding a struct or slice value is not nil
 		if v.K == vStruct && v.Typ != nil {
 			ev.st.assume(app("=", app(ev.u.dynTypeFn(), b), ev.u.dynTypeID(v.Typ))) // its dynamic type is the struct type
+			tk := typeKey(v.Typ)
+			walkValue(v, "", func(path string, l Value) {
+				if l.K == vScalar && l.T != "" && (l.S == SInt || l.S == SBool || l.S == SRef || l.S == SReal) {
+					fn := ev.u.declareFun(quote("unboxf:"+tk+"."+path+"/"+string(l.S)), []Sort{SRef}, l.S)
+					ev.st.assume(app("=", app(fn, b), l.T))
+				}
+			})
 		}
 		if v.K == vSlice {
 			// remember length and set view of a boxed slice
@@ -845,6 +852,16 @@ func (ev *Ev) unbox(v Value, t types.Type) Value {
 	}
 	// composite from interface: fresh, except that a slice gets back the length and set view recorded when it was boxed
 	fv := ev.u.freshValue(t, "unboxed", ev.st)
+	if fv.K == vStruct {
+		// the struct held by an interface value is a function of that value (same box, same fields)
+		tk := typeKey(t)
+		walkValue(fv, "", func(path string, l Value) {
+			if l.K == vScalar && l.T != "" && (l.S == SInt || l.S == SBool || l.S == SRef || l.S == SReal) {
+				fn := ev.u.declareFun(quote("unboxf:"+tk+"."+path+"/"+string(l.S)), []Sort{SRef}, l.S)
+				ev.st.assume(app("=", l.T, app(fn, v.T)))
+			}
+		})
+	}
 	if fv.K == vSlice {
 		ev.st.assume(implies(not(app("=", v.T, "nil")), app("=", app(ev.u.declareFun("boxlen", []Sort{SRef}, SInt), v.T), fv.Comp["#len"].T)))
 		if sv, ok := fv.Comp["#set"]; ok && sv.T != "" {
